@@ -667,10 +667,15 @@ func checkText(text []byte, doc *gen.Tree, optSet, fault int, v *verdict) error 
 		// load and every generic Unpack succeeds and errors (if any) agree in kind
 		strict := set == 0 || (set&1 == 0 || !in.dottedKey) && (set&2 == 0 || !in.dollar)
 		var mem, fil [3]outcome
+		var memWay, filWay [3]*way
 		for i, l := range loaders {
 			l := l
-			mem[i] = load(l.name+".NewConfig", func() (*ucfg.Config, error) { return l.mem(text, opts...) }, typ, opts)
-			fil[i] = load(l.name+".NewConfigWithFile", func() (*ucfg.Config, error) { return l.file(file, opts...) }, typ, opts)
+			fm := func() (*ucfg.Config, error) { return l.mem(text, opts...) }
+			ff := func() (*ucfg.Config, error) { return l.file(file, opts...) }
+			mem[i] = load(l.name+".NewConfig", fm, typ, opts)
+			fil[i] = load(l.name+".NewConfigWithFile", ff, typ, opts)
+			memWay[i] = &way{name: l.name + ".NewConfig(bytes, opts...)", load: fm, err: mem[i].loadErr, v: verdictOf(mem[i].loadErr)}
+			filWay[i] = &way{name: l.name + ".NewConfigWithFile(file, opts...)", load: ff, err: fil[i].loadErr, v: verdictOf(fil[i].loadErr)}
 		}
 		for i, l := range loaders {
 			if strict {
@@ -686,6 +691,25 @@ func checkText(text []byte, doc *gen.Tree, optSet, fault int, v *verdict) error 
 			if err := compare(loaders[1].name, loaders[i].name, &mem[1], &mem[i], strict); err != nil {
 				return fmt.Errorf("%s: %v", optsName(set), err)
 			}
+		}
+		// a document the library refuses at load time under these options is refused identically by all six loaders: same
+		// error type, Reason, Class, Path and Message, the file loaders adding the source note and nothing else
+		if mem[1].loadErr != nil {
+			for i := range loaders {
+				if err := sourcedLoad(memWay[i], filWay[i], file, v); err != nil {
+					return fmt.Errorf("%s: %v", optsName(set), err)
+				}
+			}
+			ro := ROpts{VarExp: set&2 != 0}
+			if set&1 != 0 {
+				ro.Sep = "."
+			}
+			for _, i := range []int{0, 2} {
+				if err := acrossFrontEnds(memWay[1], memWay[i], ro, v); err != nil {
+					return fmt.Errorf("%s: %v", optsName(set), err)
+				}
+			}
+			v.class("refused at load time: %s (verdicts of the six loaders compared)", strings.TrimPrefix(reasonClass(memWay[1].v), "refused: "))
 		}
 		if !strict {
 			if mem[1].genericErr() != nil {
@@ -833,7 +857,7 @@ var (
 
 	dollarStrings = []string{"$", "a$b", "$$", "$ {a}", "cost: $5", "}$", "$}", "$a", "{$}", "$$$", "a$"}
 	refNames      = []string{"a", "b", "c", "d", "name", "a.b", "a.c", "b.a", "c.0", "c.1", "a.b.c", "0", "1", "missing", "a.missing", "x y", ""}
-	refForms      = []string{"${%s}", "${%s}", "${%s}", "x${%s}y", "${%s} ", "$${%s}", "${%s:dflt}", "${%s:}", "${%s", "${%s}}", "$${%s", "a,${%s}", "${%s:?msg}", "${%s:+alt}"}
+	refForms      = []string{"${%s}", "${%s}", "${%s}", "x${%s}y", "${%s} ", "$${%s}", "${%s:dflt}", "${%s:}", "${%s", "${%s}}", "$${%s", "a,${%s}", "${%s:?msg}", "${%s:+alt}", "${%s:", "${${%s}", "%s ${"}
 
 	edgeInts   = []int64{0, 1, -1, 7, 42, 999999, 1000000, -1000000, 1 << 31, 1<<31 - 1, -(1 << 31), 1 << 32, 1<<53 - 1, 1 << 53, -(1 << 53), 1024, 1025}
 	edgeFloats = []float64{0.5, -0.25, 0.1, 1.5, 3.0000000001, 1e21, -1e21, 1e22, 1.5e300, math.MaxFloat64, math.SmallestNonzeroFloat64, 1e-7, -1e-7, 1e-6, 1.0000000000000002,
@@ -1063,7 +1087,7 @@ func genCase(t *rapid.T) Case {
 
 var subDocs = runlog.Register(&runlog.Sub[Case]{
 	Name: "front-ends",
-	Rule: "JSON-expressible documents (top-level object or list, depth <= 3/4, width <= 4/5; strings from YAML words, YAML-significant characters in every position, blanks, escapes, unicode and a wide random alphabet; integers |i| <= 2^53 and larger ones that float64 represents exactly (2^62, 2^63, 2^64-2048, MinInt64 ...), floats incl. exponent spellings, booleans, nulls; keys simple, odd, numeric-looking and — hostile classes — dotted; values — hostile classes — with '$' and at most one ${...} reference) written once with encoding/json in one of 4 styles. Discarded: documents a third-party decoder rejects or on which the three decoders themselves read different data. Oracle: yaml/json/hjson NewConfig and NewConfigWithFile (file under the work directory) without options and with the case's PathSep/VarExp set: generic dump and shape-derived typed target (object->struct, homogeneous list->typed slice, integral->int64, other number->float64) canonically equal across the three and between file and memory; documents the options cannot act on must load and unpack, hostile ones must all load equal or all fail; one setting that cannot be an integer (a string that is no integer literal, a non-empty object, a list of two or more) unpacked into an int field must fail with (source:'<file>') in the text for all three file loaders and with the same error kind on the in-memory configs. Non-trivial: depth >= 2 and (a string with a YAML-significant character/word/outer blank, or a number with fraction or exponent). Distinct: hash of the whole case.",
+	Rule: "JSON-expressible documents (top-level object or list, depth <= 3/4, width <= 4/5; strings from YAML words, YAML-significant characters in every position, blanks, escapes, unicode and a wide random alphabet; integers |i| <= 2^53 and larger ones that float64 represents exactly (2^62, 2^63, 2^64-2048, MinInt64 ...), floats incl. exponent spellings, booleans, nulls; keys simple, odd, numeric-looking and — hostile classes — dotted; values — hostile classes — with '$' and at most one ${...} reference) written once with encoding/json in one of 4 styles. Discarded: documents a third-party decoder rejects or on which the three decoders themselves read different data. Oracle: yaml/json/hjson NewConfig and NewConfigWithFile (file under the work directory) without options and with the case's PathSep/VarExp set: generic dump and shape-derived typed target (object->struct, homogeneous list->typed slice, integral->int64, other number->float64) canonically equal across the three and between file and memory; documents the options cannot act on must load and unpack, hostile ones must all load equal or all fail; a document the library refuses at load time under the options (malformed ${ expression) is refused identically by all six loaders: same Go error type, ucfg.Error with the same Reason, Class, Path and Message (number type names aside between front-ends), the file loaders adding (source:'<file>') - which must be there - and nothing else, the in-memory loaders naming no source; one setting that cannot be an integer (a string that is no integer literal, a non-empty object, a list of two or more) unpacked into an int field must fail with (source:'<file>') in the text for all three file loaders and with the same error kind on the in-memory configs. Non-trivial: depth >= 2 and (a string with a YAML-significant character/word/outer blank, or a number with fraction or exponent). Distinct: hash of the whole case.",
 	Gen:  genCase,
 	Run:  runCase,
 })
